@@ -71,6 +71,10 @@ pub struct ItemReq {
     /// cargo features that are off in the shipped configuration: statements gated on them are dropped (R2)
     #[serde(default)]
     pub off_features: Vec<String>,
+    /// R8c: methods `m` of `self` whose future, when it loses a `select!`, is modelled as cancelled between two iterations of
+    /// its loop: the winning arm starts with `self.vx_cancelled_m();` (contract = loop invariant of `m`, proved where `m` is verified)
+    #[serde(default)]
+    pub select_cancel: Vec<String>,
 }
 
 #[derive(Serialize, Debug, Default)]
